@@ -87,6 +87,20 @@ pub fn check_f32(rep: &mut Report, bits: u32, with_rounding: bool) {
         if !ok || h[0] != 0xf9 || !good {
             fail(rep, "Encoder::f16(rounding)", "f32", bits as u64, format!("wrote {}, expected {:?}", hex(&h), exp));
         }
+        // the other explicit half-precision entry point: a Token::F16 holding this value
+        let t = minicbor::data::Token::F16(x);
+        let mut h2 = [0u8; 8];
+        let mut e = Encoder::new(minicbor::encode::write::Cursor::new(&mut h2[..]));
+        let ok2 = e.encode(&t).is_ok();
+        let n2 = e.writer().position();
+        let got2 = u16::from_be_bytes([h2[1], h2[2]]);
+        let good2 = match exp {
+            Half::NaN => refnum::is_nan16(got2),
+            Half::Bits(e) => got2 == e,
+        };
+        if !ok2 || n2 != 3 || h2[0] != 0xf9 || !good2 || minicbor::len(&t) != 3 {
+            fail(rep, "Token::F16(rounding)", "f32", bits as u64, format!("Token::F16 wrote {} ({} bytes, len() = {}), expected a half item {:?}", hex(&h2[..n2.min(8)]), n2, minicbor::len(&t), exp));
+        }
     }
 }
 
